@@ -209,15 +209,6 @@ pub fn worker_main(prop: &dyn Prop, env: &Env, from: u64, to: u64, step: u64, pr
             let _ = lock.flush();
             std::process::exit(0);
         }
-        if crate::simrt::tainted() {
-            // stuck at the coarsest level (reported as a harness error below): later runs need a fresh process
-            flush_summary(&mut sum, &mut distinct, &mut measures);
-            let mut lock = stdout.lock();
-            let _ = writeln!(lock, "{}", json!({"t": "sum", "sum": Summary { harness_errors: vec![format!("run {}: {}", i, out.harness_error.clone().unwrap_or_else(|| "stuck in the simulator".into()))], ..Summary::default() }}));
-            let _ = writeln!(lock, "{}", json!({"t": "stuck", "index": i + step, "level": 0}));
-            let _ = lock.flush();
-            std::process::exit(0);
-        }
         sum.evaluations += 1;
         for (k, v) in &out.reach {
             *sum.reach.entry(k.clone()).or_insert(0) += v;
@@ -248,6 +239,16 @@ pub fn worker_main(prop: &dyn Prop, env: &Env, from: u64, to: u64, step: u64, pr
             let _ = lock.flush();
             // (the driver may stop the batch early on many failures: keep its counters current)
             since_flush = 500;
+        }
+        if crate::simrt::tainted() {
+            // A run was abandoned with its threads parked (stuck at the coarsest level: reported above as a
+            // harness error; or a deadlock of the code under test: reported above as a failure).  A parked
+            // thread may hold a process-wide lock of the code under test, so nothing more runs in this process.
+            flush_summary(&mut sum, &mut distinct, &mut measures);
+            let mut lock = stdout.lock();
+            let _ = writeln!(lock, "{}", json!({"t": "stuck", "index": i + step, "level": 0}));
+            let _ = lock.flush();
+            std::process::exit(0);
         }
         since_flush += 1;
         if since_flush >= 500 {
@@ -561,7 +562,9 @@ pub fn minimise(prop: &dyn Prop, env: &Env, first: &Failure, budget: Duration) -
         }
         let cands = prop.shrink(&best.case);
         for c in cands {
-            if t0.elapsed() > budget {
+            if t0.elapsed() > budget || crate::simrt::tainted() {
+                // (tainted: an abandoned run left parked threads behind, possibly holding a process-wide lock
+                // of the code under test; verdicts of further runs in THIS process would not be trustworthy)
                 break 'outer;
             }
             if !seen.insert(key(&c)) {
@@ -677,6 +680,9 @@ pub fn check_main(prop: &dyn Prop, opts: &DriverOpts, extra: &dyn Fn(&Env, &mut 
     if opts.keep_digests {
         let slice: Vec<u64> = agg.digests.keys().copied().take(64).collect();
         for i in slice {
+            if crate::simrt::tainted() {
+                break;
+            }
             let (_c, out) = run_one(prop, &env, i);
             det_checked += 1;
             if Some(&out.digest) != agg.digests.get(&i) {
